@@ -66,6 +66,23 @@ def r17_2(ctx, b):
     ctx.check(ok, R, key + '|result', b.loc(), 'result = inside || ws.on_edge', 'the result is %s, expected inside || ws.on_edge' % [fmt(b, t) for t in rts])
 
 
+def edge_points(ct):
+    """the two end points handed to WindState::add_edge: add_edge(self, p1, p2), or add_edge(self, p1.x, p1.y, p2.x, p2.y)"""
+    a = ct[2]
+    if len(a) == 3:
+        return strip_all(a[1]), strip_all(a[2])
+    if len(a) == 5:
+        pts = []
+        for xa, ya in ((a[1], a[2]), (a[3], a[4])):
+            xa, ya = strip_all(xa), strip_all(ya)
+            if xa[0] == 'field' and ya[0] == 'field' and xa[2] == 'x' and ya[2] == 'y' and nosite(strip_all(xa[1])) == nosite(strip_all(ya[1])):
+                pts.append(strip_all(xa[1]))
+            else:
+                return None, None
+        return pts[0], pts[1]
+    return None, None
+
+
 def r17_3(ctx, b, m):
     R = 'R17.3'
     an = ctx.an(b)
@@ -77,9 +94,8 @@ def r17_3(ctx, b, m):
         ok = len(adds) == 1
         if ok:
             bi, ct = adds[0]
-            a1 = strip_all(ct[2][1])
-            a2 = strip_all(ct[2][2])
-            ok = (a1[0] == 'field' and a1[4] == 'Some' and is_ws_field(a1[1], 'current_point')
+            a1, a2 = edge_points(ct)
+            ok = (a1 is not None and a1[0] == 'field' and a1[4] == 'Some' and is_ws_field(a1[1], 'current_point')
                   and a2[0] == 'field' and a2[3] == PATHOP and a2[4] == 'LineTo' and a2[2] == '0')
         ctx.check(ok, R, key + '|LineTo edge', b.loc(), 'LineTo adds the edge cursor -> point', 'the LineTo arm does not add exactly the edge (cursor, point)')
         cur_stores = [(val, pt) for addr, val, pt, kind in an.stores if is_ws_field(addr, 'current_point') and pt[0] in region and kind in ('assign', 'local')]
@@ -95,8 +111,9 @@ def r17_3(ctx, b, m):
     ok = len(adds) == 1
     if ok:
         ct = adds[0][1]
-        r1, n1 = field_path(strip_all(ct[2][1]))
-        r2, n2 = field_path(strip_all(ct[2][2]))
+        e1, e2 = edge_points(ct)
+        r1, n1 = field_path(e1) if e1 is not None else (None, None)
+        r2, n2 = field_path(e2) if e2 is not None else (None, None)
         ok = r1 == ('param', 1) and n1 == ['current_point', '0'] and r2 == ('param', 1) and n2 == ['first_point', '0']
     ctx.check(ok, R, ckey + '|closing edge', cb.loc(), 'closing edge runs cursor -> subpath start', 'WindState::close does not add exactly the edge (cursor, subpath start)')
     if ok:
